@@ -686,7 +686,12 @@ class Interp:
         if m is None:
             self.err(node, "unsupported statement %s" % type(node).__name__)
         self.ctx.cur_line = getattr(node, "lineno", None)
-        return m(node, env)
+        r = m(node, env)
+        if self.tc is not None and self.tc.ghost_on and not self.ctx.shape_mode:
+            for pred, ghost in self.tc.ghost_on:
+                if pred(node):
+                    self.run_ghost(ghost, env, node, "L%s" % getattr(node, "lineno", "?"))
+        return r
 
     def s_Expr(self, node, env):
         if isinstance(node.value, ast.Constant):
